@@ -985,6 +985,10 @@ class PathState:
         self._add(z3.Implies(tn == 0, r == 1))
         self._add(z3.Implies(tn >= 1, r == 2 * f(tn - 1)))
         self._add(z3.Implies(tn >= 1, f(tn - 1) >= 1))
+        # the function is pinned on small arguments: a path that fixes n to a constant (an unrolled recursion) must not admit a
+        # spurious model of pow2 (seen with a refactoring that moved the recursion of _split_allocation into a nested helper)
+        for k in range(0, 11):
+            self._add(z3.Implies(tn == k, r == 2 ** k))
         return SymInt(r)
 
     # ---- path condition
@@ -1322,6 +1326,10 @@ class Explorer:
             except Exception as e:  # noqa: bug in the contract program itself
                 rep.errors.append(dict(kind=type(e).__name__, msg=str(e), decisions=list(st.decisions),
                                        tb=traceback.format_exc(limit=8)))
+                if type(e).__name__ in ("CutError", "ShapeError"):
+                    # structural: the code no longer has the shape this contract program is written for; every other path would
+                    # say the same, so the task stops here (and becomes inapplicable when it is marked leak_ok)
+                    self.stack = []
             finally:
                 st.cleanup()
                 CUR = None
